@@ -52,3 +52,13 @@ package conn
 //@ func AddrPortMappedEqual
 //@   trusted
 //@   modifies nothing
+
+// The socket-option caches are maps keyed by a composite struct; their contents are outside the modelled
+// state (no function under contract reads them), so the cache write is invisible to every contract.
+//@ func (ListenConfigCache).Get
+//@   trusted
+//@   modifies nothing
+
+//@ func (DialerCache).Get
+//@   trusted
+//@   modifies nothing
